@@ -170,6 +170,9 @@ func TestAccounting(t *testing.T) {
 		}
 
 		rec := &recorder{keep: true, n: map[string]int{}}
+		mixTypes := rapid.IntRange(0, 2).Draw(t, "mixResourceTypes") == 1
+		handlerRuns := 0
+		c.ClassIf(mixTypes, "mixed-resource-classifications")
 		custom := rapid.Bool().Draw(t, "customChain")
 		var chain *base.SlotChain
 		if custom {
@@ -270,6 +273,9 @@ func TestAccounting(t *testing.T) {
 				if args != nil {
 					opts = append(opts, sentinel.WithArgs(args...))
 				}
+				if mixTypes {
+					opts = append(opts, sentinel.WithResourceType(base.ResourceType(rapid.IntRange(0, 6).Draw(t, "resType"))))
+				}
 				var e *base.SentinelEntry
 				var b *base.BlockError
 				func() {
@@ -309,6 +315,14 @@ func TestAccounting(t *testing.T) {
 					}
 					m := &ment{id: len(all), e: e, res: res, inbound: inbound, batch: batch, start: now, args: args, panicPass: isPanic}
 					all = append(all, m)
+					if hk := rapid.IntRange(0, 5).Draw(t, "exitHandler"); hk >= 4 { // exit handlers that return (nil or an error), never panic
+						herr := error(nil)
+						if hk == 5 {
+							herr = errors.New("exit handler failed")
+						}
+						e.WhenExit(func(*base.SentinelEntry, *base.EntryContext) error { handlerRuns++; return herr })
+						c.Op("  #%d: exit handler registered (returns %v)", m.id, herr)
+					}
 					if isPanic {
 						panicPasses++
 						if len(cbs) > 1 || (len(cbs) == 1 && (cbs[0].kind != "pass" || cbs[0].entry != e)) {
@@ -478,6 +492,7 @@ func TestAccounting(t *testing.T) {
 		}
 		c.ClassIf(maxLive >= 2, ">=2-live")
 		c.ClassIf(lateOps > 0, "late-call")
+		c.ClassIf(handlerRuns > 0, "exit-handler-ran")
 		c.ClassIf(panicPasses > 0, "panic-pass")
 		c.ClassIf(blocksThenTraffic, "block-then-traffic")
 		if maxLive >= 2 || lateOps > 0 || panicPasses > 0 || blocksThenTraffic {
